@@ -220,7 +220,7 @@ fn run_case_inner(case: &Case, c: &mut Cluster) -> CaseReport {
                 if let Err(e) = heal(c, &mut down) {
                     return CaseReport::violation(labels.into_iter().collect(), true, format!("op #{}: node does not restart: {}", opi, e));
                 }
-                if c.wait_quiescent_nudged(45, 0).is_err() {
+                if c.wait_quiescent_nudged_opt(45, 0, true).is_err() {
                     continue;
                 }
                 let l = match c.leader() {
@@ -320,12 +320,18 @@ fn run_case_inner(case: &Case, c: &mut Cluster) -> CaseReport {
             return CaseReport::violation(labels.into_iter().collect(), true, format!("node {} died by itself: {}", i + 1, c.log_tail(i)));
         }
     }
-    if let Err(e) = c.wait_quiescent_nudged(90, 0) {
+    // "caught up" = same leader known everywhere and last_applied == the leader's last log index. A restarted node
+    // occasionally reports NonVoter although the stored membership lists it (DESIGN.md 8.4, observations): it
+    // still receives and applies every entry, and the statement speaks about served contents only
+    if let Err(e) = c.wait_quiescent_nudged_opt(90, 0, true) {
         return CaseReport::violation(
             labels.into_iter().collect(),
             true,
             format!("live nodes did not converge within 90 s after all faults were healed: {}; node logs: 1: {} 2: {} 3: {}", e, c.log_tail(0), c.log_tail(1), c.log_tail(2)).chars().take(3000).collect::<String>(),
         );
+    }
+    if (0..3).any(|i| c.metrics(i).map(|m| m["state"] == "NonVoter").unwrap_or(false)) {
+        labels.insert("observed_restarted_node_reporting_nonvoter".into());
     }
     // the sentinel writes of the harness (one fresh key each) are ordinary log entries: all nodes agree on them too
     {
@@ -356,7 +362,7 @@ fn run_case_inner(case: &Case, c: &mut Cluster) -> CaseReport {
         if vals[0] != vals[1] || vals[1] != vals[2] {
             let hs: Vec<String> = (0..3).map(|nd| format!("node{} history {:?} metrics {}", nd + 1, history(c, nd, k).unwrap_or_default(), c.metrics(nd).map(|m| format!("{}/log{}/app{}", m["state"], m["last_log_index"], m["last_applied"])).unwrap_or_default())).collect();
             let trail: Vec<String> = attempts.iter().filter(|a| a.key == k).map(|a| a.what.clone()).collect();
-            return CaseReport::violation(labels.into_iter().collect(), true, format!("nodes settled on different contents for key {} ({:?}): {:?}; {:?}; ops on the key: {:?}", k, KEYS[k], vals, hs, trail));
+            return CaseReport::violation(labels.into_iter().collect(), true, format!("nodes settled on different contents for key {} ({:?}): {:?}; {:?}; ops on the key: {:?}; panics / dead actors in the node logs: {:?}", k, KEYS[k], vals, hs, trail, (0..3).map(|nd| c.log_alarms(nd)).collect::<Vec<_>>()));
         }
         let ka: Vec<&Attempt> = attempts.iter().filter(|a| a.key == k).collect();
         let last_acked = ka.iter().rposition(|a| a.acked);
